@@ -3,6 +3,7 @@ CONSTANTS
   Alphabet = {97, 90, 49, 43, 45, 44, 32, 95}
   N = 5
   Kind = "directive"
+  Prefixes <- PrefixesNone
   TRIM_CONTROL = FALSE
 INVARIANTS NonBlankKept CaseOnlyInName Fixpoint NoTrailingBlanks Emit
 CHECK_DEADLOCK FALSE
